@@ -108,7 +108,9 @@ SortLR(s, acc, heap) == IF s = <<>> THEN acc ELSE SortLR(Tail(s), InsertSorted(H
 
 (***************************** evaluation *****************************)
 RECURSIVE Eval(_, _, _, _), EvalArgs(_, _, _, _, _), CallFn(_, _, _, _, _), CallName(_, _, _, _, _),
-          Run(_, _, _, _, _), Step(_, _, _, _, _), ScanMatch(_, _, _, _, _, _), RunIncludes(_, _, _, _)
+          Run(_, _, _, _, _), Step(_, _, _, _, _), ScanMatch(_, _, _, _, _, _), RunIncludes(_, _, _, _),
+          ExecBlock(_, _, _, _, _), ExecStmt(_, _, _, _), ExecIf(_, _, _, _, _), ExecWhile(_, _, _, _),
+          ExecFor(_, _, _, _, _, _, _)
 
 \* parameter binding (A13)
 BindParams(def, args, heap0) ==
@@ -134,9 +136,13 @@ CallFn(name, f, args, st, fuel) ==
     IF fuel = 0 THEN EvR(Null, Fail(st, "fuel", ""))
     ELSE IF f.t # "fn" THEN Failed(name, Null, st)                 \* calling a non-function value
     ELSE IF f.f = "script" THEN
-        LET b == BindParams(f.def, args, st.heap)
-            r == Run(f.def.body, 1, [has |-> TRUE, m |-> b.m], [st EXCEPT !.heap = b.heap], fuel - 1)
-        IN EvR(r.ret, r.st)
+        LET b == BindParams(f.def, args, st.heap) IN
+        IF "struct" \in DOMAIN f.def THEN
+            \* a function of a STRUCTURED program: its body has the source-level meaning (C01)
+            LET x == ExecBlock(f.def.body, 1, [has |-> TRUE, m |-> b.m], [st EXCEPT !.heap = b.heap], fuel - 1) IN
+            EvR(IF x.sig = "ret" THEN x.v ELSE Null, x.st)
+        ELSE LET r == Run(f.def.body, 1, [has |-> TRUE, m |-> b.m], [st EXCEPT !.heap = b.heap], fuel - 1)
+             IN EvR(r.ret, r.st)
     ELSE IF f.f = "partial" THEN CallFn(name, f.fn, f.args \o args, st, fuel - 1)
     ELSE IF f.f = "host" THEN
         IF f.name = "probe" THEN
@@ -348,6 +354,90 @@ Run(stmts, p, loc, st, fuel) ==
     ELSE IF fuel = 0 THEN [ret |-> Null, st |-> Fail(st, "fuel", "")]
     ELSE LET r == Step(stmts, p, loc, st, fuel) IN      \* fuel bounds the call DEPTH; the budget bounds the length
          IF r.fin THEN [ret |-> r.ret, st |-> r.st] ELSE Run(stmts, r.pc, r.loc, r.st, fuel)
+
+(***************************** structured statements: the source-level meaning (C01, A18 - A21) *****************************)
+(* Structured abstract syntax (field k):
+     assign(name,e) expr(e) if(arms = <<[cond, body]>>, hasElse, els) while(cond, body)
+     for(var, idx, e, body) [idx = "" : no index variable]  break  continue  return(hasE,e)
+     function(name,args,last,body)
+   Big-step meaning: ExecBlock returns [sig, loc, st, v] with sig in {"norm","brk","cont","ret"}.
+   st.cnt counts executed structured statements / loop tests and is bounded by st.lim, which only
+   serves to bound the evaluation (the statement budget is a jump-level notion, C09).          *)
+XR(sig, loc, st, v) == [sig |-> sig, loc |-> loc, st |-> st, v |-> v]
+Tick(st) == LET s2 == [st EXCEPT !.cnt = @ + 1] IN IF s2.lim > 0 /\ s2.cnt > s2.lim THEN Fail(s2, "limit", "") ELSE s2
+AssignVar(name, v, loc, st) ==
+    IF loc.has THEN [loc |-> [loc EXCEPT !.m = (name :> v) @@ @], st |-> st]
+    ELSE [loc |-> loc, st |-> [st EXCEPT !.g = (name :> v) @@ @]]
+
+ExecBlock(b, i, loc, st, fuel) ==
+    IF st.exc # "" THEN XR("norm", loc, st, Null)
+    ELSE IF i > Len(b) THEN XR("norm", loc, st, Null)
+    ELSE LET r == ExecStmt(b[i], loc, st, fuel) IN
+         IF r.sig # "norm" \/ r.st.exc # "" THEN r ELSE ExecBlock(b, i + 1, r.loc, r.st, fuel)
+
+ExecIf(s, i, loc, st, fuel) ==
+    IF i > Len(s.arms) THEN (IF s.hasElse THEN ExecBlock(s.els, 1, loc, st, fuel) ELSE XR("norm", loc, st, Null))
+    ELSE LET c == Eval(s.arms[i].cond, loc, st, <<fuel, Bi>>) IN
+         IF c.st.exc # "" THEN XR("norm", loc, c.st, Null)
+         ELSE IF ~Concrete(c.v) THEN XR("norm", loc, Skip(c.st), Null)
+         ELSE IF Truthy(c.v, c.st.heap) THEN ExecBlock(s.arms[i].body, 1, loc, c.st, fuel)
+         ELSE ExecIf(s, i + 1, loc, c.st, fuel)
+
+\* the condition is evaluated before EVERY iteration, including after `continue` (A19)
+ExecWhile(s, loc, st0, fuel) ==
+    LET st == Tick(st0) IN
+    IF st.exc # "" THEN XR("norm", loc, st, Null)
+    ELSE LET c == Eval(s.cond, loc, st, <<fuel, Bi>>) IN
+         IF c.st.exc # "" THEN XR("norm", loc, c.st, Null)
+         ELSE IF ~Concrete(c.v) THEN XR("norm", loc, Skip(c.st), Null)
+         ELSE IF ~Truthy(c.v, c.st.heap) THEN XR("norm", loc, c.st, Null)
+         ELSE LET r == ExecBlock(s.body, 1, loc, c.st, fuel) IN
+              IF r.st.exc # "" THEN r
+              ELSE IF r.sig = "brk" THEN XR("norm", r.loc, r.st, Null)
+              ELSE IF r.sig = "ret" THEN r
+              ELSE ExecWhile(s, r.loc, r.st, fuel)
+
+\* for: the array is evaluated once, its length is fixed at entry, element i is read when iteration i starts (A20)
+ExecFor(s, arr, n, i, loc, st0, fuel) ==
+    IF i >= n THEN
+        \* exhausted: the index variable ends as n - 1 or n (the language leaves it open)
+        (IF s.idx # "" THEN LET a == AssignVar(s.idx, AnyFinite, loc, st0) IN XR("norm", a.loc, a.st, Null)
+         ELSE XR("norm", loc, st0, Null))
+    ELSE LET st == Tick(st0) IN
+         IF st.exc # "" THEN XR("norm", loc, st, Null)
+         ELSE LET cur == st.heap[arr.r].v
+                  elem == IF i < Len(cur) THEN cur[i + 1] ELSE Null
+                  a1 == IF s.idx # "" THEN AssignVar(s.idx, IntV(i), loc, st) ELSE [loc |-> loc, st |-> st]
+                  a2 == AssignVar(s.var, elem, a1.loc, a1.st)
+                  r == ExecBlock(s.body, 1, a2.loc, a2.st, fuel)
+              IN IF r.st.exc # "" THEN r
+                 ELSE IF r.sig = "brk" THEN XR("norm", r.loc, r.st, Null)
+                 ELSE IF r.sig = "ret" THEN r
+                 ELSE ExecFor(s, arr, n, i + 1, r.loc, r.st, fuel)
+
+ExecStmt(s, loc, st0, fuel) ==
+    LET st == Tick(st0) IN
+    IF st.exc # "" THEN XR("norm", loc, st, Null)
+    ELSE CASE s.k = "assign" ->
+            LET r == Eval(s.e, loc, st, <<fuel, Bi>>) IN
+            IF r.st.exc # "" THEN XR("norm", loc, r.st, Null)
+            ELSE LET a == AssignVar(s.name, r.v, loc, r.st) IN XR("norm", a.loc, a.st, Null)
+      [] s.k = "expr" -> XR("norm", loc, Eval(s.e, loc, st, <<fuel, Bi>>).st, Null)
+      [] s.k = "if" -> ExecIf(s, 1, loc, st, fuel)
+      [] s.k = "while" -> ExecWhile(s, loc, st, fuel)
+      [] s.k = "for" ->
+            LET r == Eval(s.e, loc, st, <<fuel, Bi>>) IN
+            IF r.st.exc # "" THEN XR("norm", loc, r.st, Null)
+            ELSE IF ~Concrete(r.v) THEN XR("norm", loc, Skip(r.st), Null)
+            ELSE IF r.v.t # "array" \/ Len(r.st.heap[r.v.r].v) = 0 THEN XR("norm", loc, r.st, Null)
+            ELSE ExecFor(s, r.v, Len(r.st.heap[r.v.r].v), 0, loc, r.st, fuel)
+      [] s.k = "break" -> XR("brk", loc, st, Null)
+      [] s.k = "continue" -> XR("cont", loc, st, Null)
+      [] s.k = "return" ->
+            LET r == IF s.hasE THEN Eval(s.e, loc, st, <<fuel, Bi>>) ELSE EvR(Null, st) IN XR("ret", loc, r.st, r.v)
+      [] s.k = "function" ->
+            XR("norm", loc, [st EXCEPT !.g = (s.name :> [t |-> "fn", f |-> "script",
+                    def |-> [name |-> s.name, args |-> s.args, last |-> s.last, body |-> s.body, struct |-> TRUE]]) @@ @], Null)
 
 (***************************** initial state *****************************)
 NoInc == [vfs |-> <<>>, sys |-> <<>>, hasSys |-> FALSE, base |-> <<>>, hasBase |-> FALSE, hasFetch |-> FALSE]
